@@ -30,7 +30,8 @@ fn small_types() -> Vec<DnType> {
 }
 
 fn small_values() -> Vec<DnValue> {
-	vec![dn_value(StrKind::Utf8, "a"), dn_value(StrKind::Printable, "b")]
+	// one ordinary and one EMPTY value (an encoder that skips empty values would lose an attribute)
+	vec![dn_value(StrKind::Utf8, "a"), dn_value(StrKind::Printable, "")]
 }
 
 fn big_types() -> Vec<DnType> {
